@@ -254,12 +254,20 @@ impl Coll for Customs {
 #[derive(Default)]
 struct ExportsByName {
     ids: Vec<ExportId>,
+    last: Option<FunctionId>,
 }
 impl Coll for ExportsByName {
     fn add(&mut self, m: &mut Module, v: u32) -> usize {
-        let mut b = FunctionBuilder::new(&mut m.types, &[], &[]);
-        b.func_body().i32_const(v as i32).drop();
-        let f = b.finish(vec![], &mut m.funcs);
+        // every other export names the function the previous one names: one function under two names
+        let f = match self.last {
+            Some(f) if self.ids.len() % 2 == 1 => f,
+            _ => {
+                let mut b = FunctionBuilder::new(&mut m.types, &[], &[]);
+                b.func_body().i32_const(v as i32).drop();
+                b.finish(vec![], &mut m.funcs)
+            }
+        };
+        self.last = Some(f);
         let id = m.exports.add(&format!("e{}", v), f);
         self.ids.push(id);
         id.index()
@@ -283,8 +291,12 @@ impl Coll for ExportsByName {
         Some(m.exports.iter_mut().map(|e| (e.id().index(), e.name[1..].parse().unwrap_or(9999))).collect())
     }
     fn find(&self, m: &Module, v: u32) -> Option<i64> {
-        Some(match m.exports.get_func(format!("e{}", v)) {
-            Ok(f) => m.exports.get_exported_func(f).map(|e| e.id().index() as i64).unwrap_or(-2),
+        let name = format!("e{}", v);
+        Some(match m.exports.get_func(&name) {
+            // a function exported once: its export, as get_exported_func finds it; exported under several names: the
+            // export of that name (get_exported_func may return any of them)
+            Ok(f) if m.exports.iter().filter(|e| matches!(e.item, ExportItem::Function(g) if g == f)).count() == 1 => m.exports.get_exported_func(f).map(|e| e.id().index() as i64).unwrap_or(-2),
+            Ok(_) => m.exports.iter().find(|e| e.name == name).map(|e| e.id().index() as i64).unwrap_or(-2),
             Err(_) => -1,
         })
     }
